@@ -1,5 +1,5 @@
 ----------------------------- MODULE MC_ConnView -----------------------------
-(* emits the ConnView table (24 rows) for the Connection binding of C14 *)
+(* emits the ConnView table (32 rows) for the Connection binding of C14 *)
 EXTENDS ValidatorConn, Sequences, TLC, Json
 VARIABLE done
 Init == done = FALSE
